@@ -373,7 +373,7 @@ def plan_path_runs(side, projects, probes, thorough):
     runs = []
     order = list(range(len(projects)))
     side.shuffle(order)
-    n_runs = 2 * len(order) if thorough else 4
+    n_runs = 40 if thorough else 4
     for pi in order * 3:
         if len(runs) >= n_runs:
             break
